@@ -117,6 +117,19 @@ def gen_colrow(r, R, C, h, w, spacing=None, first_row=None):
 def gen_data(r, R, C, dtype, mwm, fill):
     kind = r.choice(["smooth", "noise", "const", "ints", "wide"])
     i, j = np.meshgrid(np.arange(R, dtype=float), np.arange(C, dtype=float), indexing="ij")
+    if dtype == "i1":      # int8 data: no NaN, invalid pixels carry the fill value
+        kind = r.choice(["ints8", "ints8", "const8"])
+        d = np.array([[float(r.randint(-100, 100)) for _ in range(C)] for _ in range(R)]) if kind == "ints8" else np.full((R, C), float(r.choice([5, 1, -7])))
+        d[d == fill] += 1.0
+        const = float(d[0, 0]) if kind == "const8" else None
+        frac = r.choice([0.0, 0.1, 0.3])
+        has_fill = False
+        for a in range(R):
+            for b in range(C):
+                if r.random() < frac:
+                    d[a, b] = fill
+                    has_fill = True
+        return d, kind, const, has_fill
     if kind == "smooth":
         d = 15 + 4 * np.sin(i / 3.0) + 3 * np.cos(j / 4.0)
     elif kind == "noise":
@@ -201,15 +214,15 @@ def gen_fornav_case(r, big=False):
     if r.random() < 0.15:       # bad geolocation inside the swath
         cols[r.randrange(R), r.randrange(C)] = NAN
         geo = "nan_geoloc"
-    dtype = r.choice(["f4", "f8"])
-    mwm = r.random() < 0.3
-    fill = r.choice([NAN, NAN, -999.0, 0.0])
+    dtype = r.choice(["f4", "f8", "f4", "f8", "f8", "i1"])
+    mwm = r.random() < 0.3 or dtype == "i1"     # integer grids: maximum weight mode (the rounding of integer averages is checked by wgrid)
+    fill = float(r.choice([0, 0, -128, 127, -1])) if dtype == "i1" else r.choice([NAN, NAN, -999.0, 0.0, 0.0, 255.0])
     data, kind, const, has_fill = gen_data(r, R, C, dtype, mwm, fill)
     p = gen_params(r)
     return {"cols": hex2(cols), "rows": hex2(rows), "data": hex2(data), "dtype": dtype, "rps": gen_rps(r, R),
             "params": p, "mwm": mwm, "grid": [h, w], "fill": H(fill), "kind": kind, "const": const,
             "has_fill": has_fill, "geo": geo, "ws_wsm": ws_wsm(p), "layout": gen_layout(r, 0.55),
-            "geo_layout": gen_layout(r, 0.2), "masked": r.random() < 0.25}
+            "geo_layout": gen_layout(r, 0.2), "masked": dtype != "i1" and r.random() < 0.25}
 
 
 def lonlat_of(area, cols, rows):
@@ -235,9 +248,10 @@ def gen_scene(r, big=False, dropped=False, many_chunks=False, force_mwm=None):
     else:
         cols, rows = gen_colrow(r, R, C, h, w)
     lons, lats = lonlat_of(area, cols, rows)
-    dtype = r.choice(["f4", "f8"])
-    mwm = (r.random() < 0.35) if force_mwm is None else force_mwm
-    fill = r.choice([NAN, NAN, NAN, -999.0])
+    dtype = "f8" if dropped else r.choice(["f4", "f8", "f4", "f8", "f8", "i1"])
+    mwm = ((r.random() < 0.35) if force_mwm is None else force_mwm) or dtype == "i1"
+    # explicit fill values incl. the falsy 0 / 0.0; the default (NaN / dtype max) is passed explicitly or left at None
+    fill = float(r.choice([0, 0, -128, 127, 127, -1])) if dtype == "i1" else r.choice([NAN, NAN, NAN, -999.0, 0.0, 0.0, -1.0])
     data, kind, const, has_fill = gen_data(r, R, C, dtype, mwm, fill)
     nscan = R // rps
     in_rows = rps * (1 if (dropped or many_chunks) else r.randint(1, max(1, nscan // 2)))
@@ -252,7 +266,9 @@ def gen_scene(r, big=False, dropped=False, many_chunks=False, force_mwm=None):
     sc["layout"], sc["geo_layout"] = gen_layout(r, 0.5), gen_layout(r, 0.3)
     sc["persist"] = r.random() < 0.45
     sc["probe_rows"] = r.randint(1, R)
-    if not big and r.random() < 0.4:       # several resample() calls on one resampler object
+    is_default = (fill != fill) if dtype != "i1" else fill == 127.0
+    sc["dask_fill_default"] = bool(is_default and r.random() < 0.6)      # True: fill_value is not passed (None)
+    if not big and dtype != "i1" and r.random() < 0.4:       # several resample() calls on one resampler object
         sc["history"] = [{"scale": r.choice([1.0, 2.0, -1.0, 0.5]), "shift": r.choice([0.0, 1.0, -8.0]),
                           "out_chunks": [rand_chunks(r, h), rand_chunks(r, w)], "mwm": r.random() < 0.3,
                           "persist": r.random() < 0.5} for _ in range(r.randint(2, 3))]
@@ -623,6 +639,14 @@ def judge_scene(case, o):
                             fails.append(("C08.dask.footprint_covariance", "pixel %d touches cell %r with weight %r only in the %s run (output chunk y0=%d,x0=%d)"
                                           % (k, (cell[0] + y0, cell[1] + x0), wv, "full-grid" if a is not None else "sub-grid", y0, x0)))
     info["edge_cells"] = len(edge)
+    # an explicit fill_value (incl. the falsy 0 / 0.0) must be the value written to empty cells and the value that marks invalid input
+    dflt = 127.0 if case["dtype"] == "i1" else NAN
+    if not case.get("dask_fill_default") and not isfill(fill, dflt) and "error" not in one:
+        wrong = [(rr, cc) for rr in range(h) for cc in range(w) if isfill(oout[rr, cc], fill) and not isfill(dout[rr, cc], fill) and isfill(dout[rr, cc], dflt)]
+        if wrong:
+            rr, cc = wrong[0]
+            fails.insert(0, ("C08.dask.fill_value", "fill_value=%r passed explicitly: DaskEWAResampler writes the default fill %r to %d empty cells, e.g. (%d,%d); one-shot ll2cr+fornav(fill=%r) writes %r"
+                             % (fill, dout[rr, cc], len(wrong), rr, cc, fill, oout[rr, cc])))
     # the property: dask == one-shot up to float32 accumulation (+ weight table quantisation)
     smin1, smin2 = smin_eff(p), smin_eff(p, dask=True)
     nbad = 0
@@ -837,10 +861,10 @@ def run(ctx):
     t0 = time.time()
     ctx.rule = ("PRNG cases from VERIF_SEED: (a) ll2cr on 9 CRS families x random areas (dyadic / general pixel sizes, flipped y 30%, flipped x 10%) with "
                 "lattice swaths, +-1-cell margin seekers and a malformed stream (NaN, 1e30, lat 95, inf, far points); (b) fornav on synthetic col/row "
-                "fields (spacing 0.45..3 cells, rotation, curvature, NaN geolocation), float32/float64 data (smooth, noise, constant, integer, wide; "
+                "fields (spacing 0.45..3 cells, rotation, curvature, NaN geolocation), float32/float64/int8 data (smooth, noise, constant, integer, wide; fill NaN, 0, -999, 255 / int8 0, -128, 127, -1; "
                 "NaN / fill pixels; handed over C-contiguous or as strided views into larger arrays, Fortran-ordered, transposed-back, negative strides), rows_per_scan dividing the rows, weight parameters, average and maximum-weight mode; (c) scenes = area + lon/lat "
                 "swath + data run one-shot and through DaskEWAResampler for scan-aligned input chunkings and random output chunk partitions (plus the "
-                "legacy resampler), with persist=True/False and, for some, a history of 2-3 resample() calls on ONE resampler object (each compared with a fresh "
+                "legacy resampler), with fill_value left at None or passed explicitly (NaN, 0.0, -1, -999; int8 0, -128, 127, -1), persist=True/False and, for some, a history of 2-3 resample() calls on ONE resampler object (each compared with a fresh "
                 "object), incl. the known-finding scene and the flipped design-round area; (d) write_grid_image_single on explicit arrays "
                 "(float and int8 grids). A case is non-trivial when at least one grid cell receives >= 2 valid contributions (fornav/scene), at least "
                 "one pixel is counted in the grid (ll2cr), or a non-fill cell is written (wgrid); distinct = distinct inputs")
@@ -922,7 +946,7 @@ def run(ctx):
         multi = bool(tab) and max(len(v) for v in tab.values()) >= 2
         ctx.case(("sc", case["extent"], case["shape"], case["lons"][0][:2], case["in_rows"], repr(case["out_chunks"]), case["mwm"]), nontrivial=multi,
                  sample={"scene_area": case["cls"], "grid": case["grid"], "swath": [len(case["lons"]), len(case["lons"][0])], "rps": case["rps"],
-                         "in_rows": case["in_rows"], "out_chunks": case["out_chunks"], "mwm": case["mwm"], "dtype": case["dtype"],
+                         "in_rows": case["in_rows"], "out_chunks": case["out_chunks"], "mwm": case["mwm"], "dtype": case["dtype"], "fill_value": ("None (default)" if case.get("dask_fill_default") else repr(U(case["fill"]))),
                          "placeholders": o.get("placeholders"), "persist": bool(case.get("persist")), "history_calls": len(case.get("history") or []),
                          "legacy": bool(case.get("legacy")), "data_layout": case.get("layout", "c"), "lonlat_layout": case.get("geo_layout", "c")})
         ctx.count("scene:" + ("mwm" if case["mwm"] else "avg") + ":" + case["dtype"])
@@ -930,6 +954,8 @@ def run(ctx):
         ctx.count("scene:out_blocks=%d" % (len(case["out_chunks"][0]) * len(case["out_chunks"][1])))
         if ok and any(o["placeholders"]):
             ctx.count("scene:placeholder_chunk")
+        fv = U(case["fill"])
+        ctx.count("scene:fill_" + ("default_none" if case.get("dask_fill_default") else "nan_explicit" if fv != fv else "zero" if fv == 0 else "other_explicit"))
         ctx.count("scene:persist=%s" % bool(case.get("persist")))
         if case.get("history"):
             ctx.count("scene:history_calls", len(case["history"]))
